@@ -896,7 +896,7 @@ pub fn write_evidence(rep: &PropReport) -> Result<(), String> {
             "samples": samples,
             "simulated_runs": runs,
             "simulated_runs_per_hour": per_hour.round(),
-            "seeds": format!("VERIF_SEED={} ; run i of world w draws from Xoshiro256**(SplitMix64(seed, w/mode, i)), i in 0..runs per batch", rep.seed),
+            "seeds": format!("VERIF_SEED={} ; run i of world w draws from Xoshiro256**(SplitMix64(seed, w/mode, i)), i in 0..runs per batch; the keys of the library's hash maps (iteration order) derive from (seed, w/mode, first run of the worker lane) through the getrandom seam and the keys in force at the start of a failing run are stored in its replay file", rep.seed),
             "simulated_time_ns": sim_ns.to_string(),
             "faults_fired": faults,
             "probes": probes,
